@@ -83,7 +83,86 @@ def deepcopy_memo_rules(ctx: Ctx, rs: RuleSet, rule: str):
   return df, g, memo
 
 
+def sentinel_and_override_rules(ctx: Ctx, rs: RuleSet):
+  """(a) A sentinel whose copy and deepcopy are itself must also unpickle to
+
+  itself; (b) a Buildable subclass that overrides __unflatten__ must restore
+  the tags the metadata carries (copy.copy / cast / copy_with go through it).
+  """
+  p = ctx.p
+  rule = 'IDENTITY.sentinel-pickle'
+  rs.declare(rule, 'objects that are their own copy and deep copy (compared '
+             'with `is`) are also their own unpickled value', 1)
+  n = 0
+  for cq, ci in sorted(p.classes.items()):
+    if not cq.startswith('fiddle._src.') or cq.endswith('_test'):
+      continue
+    cp, dc = ci.methods.get('__copy__'), ci.methods.get('__deepcopy__')
+    if cp is None or dc is None:
+      continue
+
+    def returns_self(m):
+      rets = [r for r in walk_function(m.node) if isinstance(r, ast.Return)]
+      return bool(rets) and all(unparse(r.value) == m.params[0] for r in rets)
+
+    if not (returns_self(cp) and returns_self(dc)):
+      continue
+    n += 1
+    red = ci.methods.get('__reduce__') or ci.methods.get('__reduce_ex__')
+    ok = False
+    if red is not None:
+      rets = [r for r in walk_function(red.node) if isinstance(r, ast.Return)]
+      mod = ci.module if hasattr(ci, 'module') else None
+      ok = bool(rets) and all(isinstance(r.value, ast.Constant) and isinstance(
+          r.value.value, str) for r in rets)
+      if ok and mod is not None:
+        ok = all(r.value.value in mod.assigns for r in rets)
+    rs.check(ok, rule, cq,
+             '__reduce__ names the module-level instance: pickle returns the '
+             'same object' if ok else
+             f'{ci.name} instances are their own copy / deep copy but pickle '
+             'creates a new instance: a configuration holding the sentinel '
+             '(fdl.NO_VALUE) comes back from a pickle round trip with an '
+             'argument that is no longer `is` the sentinel and != the original',
+             ctx.loc(cp, cp.node))
+  if n == 0:
+    raise AnalysisError('no identity-copied sentinel class found (NoValue)')
+  rule = 'FRESHC.unflatten-overrides'
+  rs.declare(rule, 'every __unflatten__ of a Buildable class restores the '
+             'argument tags from the metadata', 1)
+  base = f'{B}.__unflatten__'
+  for cq in sorted(p.subclasses(B, strict=False)):
+    ci = p.classes[cq]
+    m = ci.methods.get('__unflatten__')
+    if m is None:
+      continue
+    uses_tags = any(isinstance(c, ast.Call) and isinstance(
+        c.func, ast.Attribute) and c.func.attr == 'tags'
+                    for c in walk_function(m.node))
+    delegates = any(isinstance(c, ast.Call) and '__unflatten__' in unparse(
+        c.func) and 'super()' in unparse(c.func) for c in walk_function(m.node))
+    init = ci.methods.get('__init__')
+    argless = (init is not None and len(init.params) == 1 and
+               not init.node.args.vararg and not init.node.args.kwarg and
+               all(isinstance(r, ast.Return) and unparse(r.value) == 'cls()'
+                   for r in walk_function(m.node) if isinstance(r, ast.Return)))
+    if argless and not (uses_tags or delegates):
+      rs.exception(rule, m.qualname, 'the class takes no arguments at all '
+                   '(its __init__ has no parameters and __unflatten__ is '
+                   'cls()): there is nothing to tag (re-verified)')
+      rs.ok(rule, m.qualname, 'argument-less placeholder class', ctx.loc(m, m.node))
+      continue
+    rs.check(uses_tags or delegates, rule, m.qualname,
+             'restores metadata.tags()' if uses_tags else
+             'delegates to the base implementation' if delegates else
+             f'{m.qualname} rebuilds the object from the arguments only: '
+             'copy.copy, fdl.cast and fdl.copy_with of such a configuration '
+             'lose its argument tags (the base implementation restores them)',
+             ctx.loc(m, m.node))
+
+
 def run(ctx: Ctx, rs: RuleSet, tier: str):
+  sentinel_and_override_rules(ctx, rs)
   p = ctx.p
   rule = 'FRESHC.copy-containers'
   rs.declare(rule, 'every mutable internal of a copy is a fresh container of '
